@@ -208,7 +208,8 @@ def _run(ctx):
     ctx.require("oracle.unexpanded.raised", 200)
     # 1. all sibling sequences of length <= 5 over {plain, tf->0, tf->1, tf->3}
     idx = 0
-    for L in range(1, 6):
+    maxL = 7 if ctx.thorough else 5
+    for L in range(1, maxL + 1):
         for combo in itertools.product("p013", repeat=L):
             idx += 1
             if not ctx.mine(idx):
@@ -226,7 +227,7 @@ def _run(ctx):
                 ctx.guard(check_case, ctx, root, witness={"recipe": root})
                 ctx.case(root, nontrivial=nontrivial(root))
             ctx.count("sibling_sequences")
-    ctx.exhaustive["sibling_sequences_len_le_5_over_plain_tf0_tf1_tf3"] = True
+    ctx.exhaustive["sibling_sequences_len_le_%d_over_plain_tf0_tf1_tf3" % maxL] = True
     ex = gen.TAG("div", {"k": "text", "s": "a"}, {"k": "tf", "ret": "list", "c": [{"k": "text", "s": "x"}, gen.TAG("b", ws=False)]}, {"k": "tf", "ret": "list", "c": []})
     ctx.sample({"recipe": ex, "output": gen.build(ex).render()["html"]})
     # 2. random trees
